@@ -35,8 +35,8 @@ fn two_updates(n1: usize, n2: usize) {
     let mut shown = p1.clone();
     shown.extend(p2.iter().cloned());
     check_k_best(a.elitists(), &shown, k);
-    vcover!(k > n1 && k < n1 + n2);
-    vcover!(k == 0);
+    crate::vcover!(k > n1 && k < n1 + n2);
+    crate::vcover!(k == 0);
 }
 /// @verif anchor=ElitistArchive::update bound="updates with 1 then 2 individuals; k <= 5; all objective values"
 #[cfg_attr(kani, kani::proof)] #[cfg_attr(kani, kani::unwind(8))]
